@@ -212,3 +212,88 @@ func runTTLAcrossOutage(ctx *core.Ctx, bin string, drop bool) {
 		ctx.Violation("ttl-outage-diff:after-restart", "the same scenario, after a restart of the follower: "+why, map[string]any{"scenario": "ttl-across-outage"})
 	}
 }
+
+// runStarValue: the last command in the follower's log carries text that looks
+// like the start of a command (`*0\r\n`, `*1\r\n$1\r\na\r\n`) inside a value. A
+// reconnect (dropped connection, leader restart) must find the log intact.
+func runStarValue(ctx *core.Ctx, bin string) {
+	leader, err := srv.Start(srv.Opts{Bin: bin})
+	if err != nil {
+		ctx.Inconclusive("star-value: " + err.Error())
+		return
+	}
+	defer func() { leader.Kill9() }()
+	follower, err := srv.Start(srv.Opts{Bin: bin})
+	if err != nil {
+		ctx.Inconclusive("star-value: " + err.Error())
+		return
+	}
+	defer follower.Kill9()
+	px, err := proxy.Start(leader.Addr())
+	if err != nil {
+		ctx.Inconclusive("star-value: " + err.Error())
+		return
+	}
+	defer px.Close()
+	lc, e1 := dial(leader)
+	fc, e2 := dial(follower)
+	if e1 != nil || e2 != nil {
+		ctx.Inconclusive("star-value: dial")
+		return
+	}
+	defer func() { lc.Close() }()
+	lc.Do("SET", "k", "a", "POINT", "1", "2")
+	if r, err := fc.Do("FOLLOW", "127.0.0.1", strconv.Itoa(px.Port())); err != nil || r.IsErr() {
+		ctx.Inconclusive("star-value: FOLLOW failed")
+		return
+	}
+	fc.Close()
+	if ok, why := quiescentCopy(leader, follower, 20*time.Second); !ok {
+		ctx.Inconclusive("star-value: first synchronisation: " + why)
+		return
+	}
+	values := []string{"price list *0\r\nsecond line", "*1\r\n$1\r\na\r\n", "x\r\n*3\r\n$3\r\nSET\r\n$1\r\nk\r\n", "tail *2\r\n"}
+	for i, v := range values {
+		lc.Do("SET", "k", "star"+strconv.Itoa(i), "STRING", v)
+		time.Sleep(400 * time.Millisecond) // streamed and applied: the follower's log ends with this command
+		what := "the replication connection was dropped"
+		if i%2 == 0 {
+			px.DropAll()
+		} else {
+			what = "the leader was restarted"
+			lc.Close()
+			leader.Term(10 * time.Second)
+			nl, err := leader.Restart()
+			if err != nil {
+				ctx.Inconclusive("star-value: leader restart: " + err.Error())
+				return
+			}
+			leader = nl
+			px.SetTarget(leader.Addr())
+			if lc, err = dial(leader); err != nil {
+				ctx.Inconclusive("star-value: dial")
+				return
+			}
+		}
+		time.Sleep(1500 * time.Millisecond)
+		ctx.Eval(1)
+		ctx.Distinct("star-value|" + strconv.Itoa(i))
+		if !follower.Alive() {
+			_, site := follower.Crashed()
+			ctx.Violation("replication-crash:follower:last-command-with-star", fmt.Sprintf("the follower's log ended with `SET k star%d STRING %q` and %s: the follower process exited (%s); stderr: %s", i, v, what, site, clipStr(follower.StderrTail(600), 600)),
+				map[string]any{"last_leader_command": []string{"SET", "k", "star" + strconv.Itoa(i), "STRING", v}, "then": what})
+			return
+		}
+		if ok, why := quiescentCopy(leader, follower, 25*time.Second); !ok {
+			ctx.Violation("star-value-diff", fmt.Sprintf("after `SET k star%d STRING %q` and %s the follower does not become a healthy copy again: %s", i, v, what, why), nil)
+			return
+		}
+	}
+}
+
+func clipStr(s string, n int) string {
+	if len(s) > n {
+		return s[len(s)-n:]
+	}
+	return s
+}
